@@ -450,3 +450,24 @@ func nonConstFormatCalls(f *eng.Func) []*ast.CallExpr {
 	})
 	return out
 }
+
+// resolveLocal looks through a local variable that is assigned exactly once in body: it returns the assigned
+// expression (repeatedly, at most three steps), or e itself.
+func resolveLocal(info *types.Info, body ast.Node, e ast.Expr) ast.Expr {
+	for i := 0; i < 3; i++ {
+		id, ok := ast.Unparen(e).(*ast.Ident)
+		if !ok {
+			return e
+		}
+		v, isV := info.ObjectOf(id).(*types.Var)
+		if !isV || v.IsField() {
+			return e
+		}
+		es := eng.AssignedExprs(info, body, v)
+		if len(es) != 1 {
+			return e
+		}
+		e = es[0]
+	}
+	return e
+}
